@@ -532,6 +532,7 @@ func main() {
 		c01(r, *tier, *shard, *nshard)
 	case "C02":
 		c02(r, *tier, *shard, *nshard)
+		streamsDoNotInterfere(*shard)
 	default:
 		fmt.Fprintln(os.Stderr, "unknown -prop")
 		os.Exit(2)
